@@ -170,6 +170,8 @@ type signWorld struct {
 	rich     bool
 	features map[string]bool
 	yamlSafe bool
+	// allowOddKeys lets "<<" and "" through as mapping keys (C09 meets D6 on purpose).
+	allowOddKeys bool
 }
 
 func (w *signWorld) str(pos string) string {
@@ -198,7 +200,7 @@ func (w *signWorld) str(pos string) string {
 	} else {
 		s = gen.Word(t, "str:"+pos)
 	}
-	if isKey && (s == "<<" || s == "") {
+	if isKey && (s == "<<" || s == "") && !(w.allowOddKeys && !strings.HasSuffix(pos, ".name")) {
 		s += "k"
 	}
 	if gen.YAMLUnsafe(s) {
